@@ -102,6 +102,17 @@ Proof. eexists. split; [vm_compute; reflexivity|]. split; vm_compute; reflexivit
 (* Claim-ladder rung 1 of DESIGN.md section 9 for C03.                                          *)
 (* ------------------------------------------------------------------------------------------ *)
 
+(* (2.0) header and binary comment: what the writer emits first is a valid "%PDF-d.d" line followed by
+   a comment line with at least four bytes >= 128; the strict reader recovers the version.
+   Hypotheses = the domain: the version has the form digits.digits, the binary mark has at least
+   four bytes, all >= 128 (the writer refuses smaller bytes). *)
+Theorem C03_save_header :
+  forall d rest,
+    version_ok (d_version d) = true ->
+    binary_mark_ok (d_binary_mark d) = true -> (4 <= length (d_binary_mark d))%nat ->
+    p_header (header_bytes d ++ mark_bytes d ++ rest) = SOk (d_version d, skip_ws rest false).
+Proof. exact save_header_accepted. Qed.
+
 (* (2.1) every table entry the writer prints (offset < 2^32, generation < 2^16) is accepted by
    the strict 20-byte entry parser and decodes to the same offset / generation / kind *)
 Theorem C03_save_entry_20 :
@@ -206,6 +217,7 @@ Print Assumptions C03_subsection_exact.
 Print Assumptions C03_xref_stream_consistent.
 Print Assumptions C03_stream_lengths.
 Print Assumptions C03_example_accepts.
+Print Assumptions C03_save_header.
 Print Assumptions C03_save_entry_20.
 Print Assumptions C03_save_subsection_entries.
 Print Assumptions C03_save_startxref_exact.
